@@ -207,11 +207,11 @@ theorem evalCond_pre (pl : List Event) (c : Ctx) (cd : CondSpec) :
     evalCond (c.pre pl) cd = ((evalCond c cd).1.pre pl, (evalCond c cd).2) := by
   unfold evalCond
   split
-  · rw [collectHlpArgs_pre]
+  · rw [show (c.pre pl).clrErr = c.clrErr.pre pl from rfl, collectHlpArgs_pre]
     simp only [Ctx.pre_err]
-    cases applyCondFn cd.hlp (collectHlpArgs c cd.hlpArg).1 with
+    cases applyCondFn cd.hlp (collectHlpArgs c.clrErr cd.hlpArg).1 with
     | none => rfl
-    | some b => simp only; cases (collectHlpArgs c cd.hlpArg).2.err <;> rfl
+    | some b => simp only; cases (collectHlpArgs c.clrErr cd.hlpArg).2.err <;> rfl
   · split
     · cases cd.hlpArg with
       | nil => rfl
@@ -254,11 +254,11 @@ theorem evalCase_pre (pl : List Event) (c : Ctx) (arg : Bytes) (k : CaseSpec) :
         simp only
         cases (c.get k.l).1.text <;> rfl
   · split
-    · rw [collectHlpArgs_pre]
+    · rw [show (c.pre pl).clrErr = c.clrErr.pre pl from rfl, collectHlpArgs_pre]
       simp only [Ctx.pre_err]
-      cases applyCondFn k.hlp (collectHlpArgs c k.hlpArg).1 with
+      cases applyCondFn k.hlp (collectHlpArgs c.clrErr k.hlpArg).1 with
       | none => rfl
-      | some b => simp only; cases (collectHlpArgs c k.hlpArg).2.err <;> rfl
+      | some b => simp only; cases (collectHlpArgs c.clrErr k.hlpArg).2.err <;> rfl
     · rw [nodeCmp_pre]
       simp only [Ctx.pre_err]
       cases (nodeCmp c k.l k.r k.staticL k.staticR k.op).2.1 with
